@@ -6,6 +6,10 @@ ops: see `parseClusterOp` / `parseClusterTOp` in lean/Driver/Cluster.lean; `{"k"
 kills the process performing `op` right before its (k+1)-th file write (see suites/cluster.py); with `"torn": true` it is killed
 INSIDE that write: a version file is left EMPTY, for a data file the flag degenerates to the plain crash.
 
+`{"k": "failWrite", "op": <api op>, "after": k}`: the (k+1)-th file write of the call raises OSError, the handle lives on;
+`{"k": "stallBegin", "h": h, "op": <api op>, "after": k}` / `{"k": "stallEnd", "h": h}`: the call parks right before its (k+1)-th
+file write, alive and inside its lock section, until `stallEnd` (`parseClusterFOp`).
+
 `Sim` is a light-weight stand-in for a sequence of submitter rounds; it only serves to produce operation sequences that
 respect the role protocol and carry well-formed `update_job_status` arguments (as HpcSubmitter.run produces them).  Whether
 a run really respected the protocol is decided by the suite from the real return values, not by this module.
@@ -388,15 +392,190 @@ def crash_case_ops(rng, jobs, host, brk):
     return ops
 
 
+def bad_update(rng, h, n, sim):
+    """an `update_job_status` call with legal-looking arguments that RAISES inside the locked update - after the version
+    pre-check, before the first file write - and leaves the handle alive (its caller catches the exception and goes on):
+    a job name that is not in the status file (KeyError from the name lookup in the submitted / blocked / completed loop,
+    possibly after earlier elements were applied in memory), or one of the asserts (a job submitted twice, a completed job that
+    was submitted or blocked in the same call, a blocked job that is not NOT_SUBMITTED)"""
+    ns = [j for j in range(n) if sim.state[j] == "n" and not sim.rem[j]]
+    ss = [j for j in range(n) if sim.state[j] == "s"]
+    good_sub = ns[:rng.randrange(0, 2)]
+    good_comp = ss[:rng.randrange(0, 2)]
+    hpc, batch = sim.hpc + ([sim.next_hpc] if good_sub else []), sim.batch + (1 if good_sub else 0)
+    mode = rng.choice(["key.submitted", "key.submitted", "key.completed", "key.completed", "key.blocked", "assert.twice",
+                       "assert.completed_processed", "assert.blocked_state"])
+    if mode == "key.submitted":
+        return upd(h, good_sub + [n], [], [], good_comp, hpc, batch)
+    if mode == "key.completed":
+        return upd(h, good_sub, [], [], good_comp + [n + rng.randrange(2)], hpc, batch)
+    if mode == "key.blocked":
+        return upd(h, good_sub, [(n, [0])], [], good_comp, hpc, batch)
+    if mode == "assert.twice":
+        j = (ns or ss or [0])[0]
+        return upd(h, [j, j], [], [], good_comp, hpc, batch)
+    if mode == "assert.completed_processed":
+        j = (ns or [0])[0]
+        return upd(h, [j], [], [], [j], hpc, batch)
+    j = (ss or [j for j in range(n) if sim.state[j] == "d"] or [0])[0]
+    return upd(h, good_sub, [(j, [])], [], [], hpc, batch)
+
+
+def good_write(rng, a, n, sim, holder):
+    """a call that would succeed (for the role holder: what a round / a node's end does; for another handle: a promotion)"""
+    subs = [j for j in range(n) if sim.state[j] == "n" and not sim.rem[j]][:2]
+    comp = [j for j in range(n) if sim.state[j] == "s"][:1]
+    if not holder:
+        return rng.choice([{"k": "promote", "h": a}, {"k": "markCanceled", "h": a},
+                           upd(a, subs, [], [], comp, sim.hpc + ([sim.next_hpc] if subs else []), sim.batch + (1 if subs else 0))])
+    r = rng.random()
+    if r < .5:
+        return upd(a, subs, [], [], comp, sim.hpc + ([sim.next_hpc] if subs else []), sim.batch + (1 if subs else 0))
+    if r < .7:
+        return {"k": "demote", "h": a}
+    if r < .8:
+        return {"k": "markCanceled", "h": a}
+    if r < .9 and sim.hpc:
+        return {"k": "completeHpcId", "h": a, "id": sim.hpc[0]}
+    if not sim.complete:
+        return {"k": "markComplete", "h": a}
+    return {"k": "demote", "h": a}
+
+
+def fail_write_of(rng, inner):
+    """one file write of the call raises OSError (quota, a hiccup of the shared filesystem): the (after+1)-th of the at most four
+    of one lock section; the exception reaches the caller, which goes on using the handle"""
+    return {"k": "failWrite", "op": inner, "after": rng.choice([0, 0, 1, 1, 2, 3] if inner["k"] in ("update", "prepareResubmit") else [0, 0, 1, 1, 2])}
+
+
+def failed_case_ops(rng, jobs, host, brk):
+    """A call of a handle FAILS (raises) and the same handle is used afterwards: the failure leaves the handle's in-memory copy
+    partly updated, the files partly written (a failed write) and the deadlock marker behind.  Then OTHER handles change the
+    state, and the handle that failed writes again: it must be refused whenever its copy is out of date."""
+    n = len(jobs)
+    early = rng.random() < .4
+    pre = [{"k": "load", "h": 3, "host": rng.randrange(3), "promote": False, "jobs": True}] if early else []
+    ops, sim = protocol_ops(rng, jobs, host, brk, budget=rng.randrange(1, 14))
+    ops = [o for o in pre + ops if not (o["k"] == "load" and o["h"] == 3 and o not in pre)]
+    if sim.holder is not None and rng.random() < .7:
+        a = sim.holder                      # the role holder fails in the middle of its work
+    elif early:
+        a = 3                               # a handle loaded long ago (may be out of date already: the failure is a rejection)
+    else:
+        a = rng.choice([q for q in (1, 2, 3) if q != sim.holder])
+        ops.append({"k": "load", "h": a, "host": rng.randrange(3), "promote": False, "jobs": True})
+    holder = a == sim.holder
+    for _ in range(rng.choice([1, 1, 1, 2])):
+        r = rng.random()
+        if r < .5:
+            ops.append(bad_update(rng, a, n, sim))
+        elif r < .58:
+            ops.append({"k": "completeHpcId", "h": a, "id": 99})        # list.remove of an unknown id: ValueError under the lock
+        else:
+            ops.append(fail_write_of(rng, good_write(rng, a, n, sim, holder)))
+        ops.append({"k": "breakMarker"})
+    if rng.random() < .3:
+        ops.append(good_write(rng, a, n, sim, holder))                  # the caller retries at once
+        ops.append({"k": "breakMarker"})
+    # ---- the others change the state
+    if holder:
+        if rng.random() < .8:
+            ops.append({"k": "demote", "h": a})
+            ops.append({"k": "breakMarker"})
+    elif sim.holder is not None:
+        b = sim.holder
+        ops.append(good_write(rng, b, n, sim, True))
+        if rng.random() < .5:
+            ops.append({"k": "demote", "h": b})
+    b = rng.choice([q for q in (1, 2) if q != a] or [1])
+    for _ in range(rng.choice([1, 1, 2])):
+        ops.append({"k": "load", "h": b, "host": rng.randrange(3), "promote": True, "jobs": True})
+        subs = [j for j in range(n) if sim.state[j] == "n" and not sim.rem[j]][:2]
+        comp = [j for j in range(n) if sim.state[j] == "s"][:1]
+        w = rng.random()
+        if w < .7:
+            ops.append(upd(b, subs, [], [], comp, sim.hpc + [sim.next_hpc + 7], sim.batch + 1))
+        elif w < .85:
+            ops.append({"k": "markCanceled", "h": b})
+        if rng.random() < .5:
+            ops.append({"k": "demote", "h": b})
+    # ---- the handle that failed goes on
+    for _ in range(rng.randrange(1, 5)):
+        ops.append(stale_write(rng, a, n, sim))
+        if rng.random() < .85:
+            ops.append({"k": "breakMarker"})
+        if rng.random() < .25:
+            ops.append({"k": "read"})
+    return ops
+
+
+def stall_case_ops(rng, jobs, host, brk):
+    """A LIVE process stays inside its lock section for a long time (a hung write on the shared filesystem): `stallBegin` parks
+    the call right before one of its file writes, the OTHER handles act (each must time out at the lock and change nothing,
+    however old the lock file is), `stallEnd` lets the call finish."""
+    n = len(jobs)
+    early = rng.random() < .6
+    pre = [{"k": "load", "h": 3, "host": rng.randrange(3), "promote": False, "jobs": rng.random() < .8}] if early else []
+    ops, sim = protocol_ops(rng, jobs, host, brk, budget=rng.randrange(1, 16))
+    ops = [o for o in pre + ops if not (o["k"] == "load" and o["h"] == 3 and o not in pre)]
+    others = [3] if early else []
+    if sim.holder != 0:
+        others.append(0)
+    if sim.holder is not None and rng.random() < .55:
+        a = sim.holder
+        inner = good_write(rng, a, n, sim, True)
+    else:
+        if sim.holder is not None:
+            ops.append({"k": "demote", "h": sim.holder})
+            if sim.holder not in others:
+                others.append(sim.holder)
+        a = rng.choice([q for q in (1, 2) if q not in others] or [1])
+        if a in others:
+            others.remove(a)
+        inner = {"k": "load", "h": a, "host": rng.randrange(3), "promote": True, "jobs": True}
+    ops.append({"k": "stallBegin", "h": a, "op": inner, "after": rng.choice([0, 0, 0, 1, 1, 2, 3])})
+    free = [q for q in (1, 2, 3) if q != a and q not in others] or [q for q in (1, 2, 3) if q != a]
+
+    def other_op():
+        r = rng.random()
+        if r < .4:
+            return {"k": "load", "h": rng.choice(free), "host": rng.randrange(3), "promote": True, "jobs": True}
+        if r < .7 and others:
+            w = stale_write(rng, rng.choice(others), n, sim)
+            return w if w["k"] != "prepareResubmit" else {"k": "promote", "h": w["h"]}
+        if r < .8:
+            return {"k": "read"}
+        if r < .9:
+            return {"k": "breakMarker"}
+        return {"k": "load", "h": rng.choice(free), "host": rng.randrange(3), "promote": False, "jobs": rng.random() < .7}
+    for _ in range(rng.randrange(1, 5)):
+        ops.append(other_op())
+    ops.append({"k": "stallEnd", "h": a})
+    for _ in range(rng.randrange(1, 5)):
+        r = rng.random()
+        if r < .25:
+            ops.append({"k": "read"})
+        elif r < .45:
+            ops.append(good_write(rng, a, n, sim, True))
+        else:
+            ops.append(other_op())
+    return ops
+
+
 def gen_case(rng):
     jobs = gen_jobs(rng)
     n = len(jobs)
     host = rng.randrange(3)
     brk = rng.random() < .6
     kind = rng.choice(["protocol", "protocol", "protocol", "resubmit", "resubmit", "stale", "stale", "stale", "jsstale", "samehost", "chaos", "chaos",
-                       "crash", "crash", "crash", "crash"])
+                       "crash", "crash", "crash", "crash", "failed", "failed", "failed", "stall", "stall"])
     if kind == "crash":
         ops = crash_case_ops(rng, jobs, host, brk)
+    elif kind == "failed":
+        brk = brk or rng.random() < .7
+        ops = failed_case_ops(rng, jobs, host, brk)
+    elif kind == "stall":
+        ops = stall_case_ops(rng, jobs, host, brk)
     elif kind == "protocol":
         ops, _ = protocol_ops(rng, jobs, host, brk)
     elif kind == "resubmit":
@@ -572,6 +751,47 @@ def witness_cases():
             {"k": "prepareResubmit", "h": 3, "sel": [0], "blockers": []}, {"k": "read"},
             {"k": "forgeJsVer", "n": 3}, {"k": "load", "h": 1, "host": 0, "promote": False, "jobs": True},
             {"k": "completeHpcId", "h": 1, "id": 1}, {"k": "read"}]})
+    # A CALL FAILS AND THE HANDLE LIVES ON: the creator's update raises inside the locked update (unknown job name: KeyError; a job
+    # submitted twice: AssertionError; one of its four file writes raises OSError); it gives up the role; another host takes over
+    # and records a batch; then the handle that failed - out of date by now - promotes / writes again: refused, files unchanged
+    fails = [upd(0, [0, 2], [], [], [], [1], 2), upd(0, [], [], [], [5], [], 1), upd(0, [0, 0], [], [], [], [1], 2)]
+    fails += [{"k": "failWrite", "op": upd(0, [0], [], [], [], [1], 2), "after": k} for k in (0, 1, 2, 3)]
+    fails += [{"k": "failWrite", "op": {"k": "markCanceled", "h": 0}, "after": k} for k in (0, 1)]
+    for bad in fails:
+        out.append({"op": "cluster.run", "kind": "witness.failed_then_stale", "host": 0, "breakStale": True, "jobs": two, "ops": [
+            {"k": "load", "h": 3, "host": 2, "promote": False, "jobs": True},
+            bad, {"k": "breakMarker"}, {"k": "demote", "h": 0}, {"k": "breakMarker"},
+            {"k": "load", "h": 1, "host": 1, "promote": True, "jobs": True}, upd(1, [1], [], [], [], [7], 2), {"k": "read"},
+            {"k": "promote", "h": 0}, {"k": "breakMarker"}, {"k": "completeHpcId", "h": 0, "id": 1}, {"k": "breakMarker"},
+            {"k": "markCanceled", "h": 0}, {"k": "breakMarker"}, upd(0, [], [], [], [], [], 2), {"k": "breakMarker"},
+            {"k": "markCanceled", "h": 3}, {"k": "breakMarker"}, {"k": "demote", "h": 1}, {"k": "read"}]})
+    # a handle that is NOT the holder fails (its update is attempted with a current copy), the holder goes on, the failed handle
+    # writes again
+    for bad in fails[:3]:
+        out.append({"op": "cluster.run", "kind": "witness.failed_nonholder", "host": 0, "breakStale": True, "jobs": two, "ops": [
+            {"k": "load", "h": 1, "host": 1, "promote": False, "jobs": True}, dict(bad, h=1), {"k": "breakMarker"},
+            upd(0, [0], [], [], [], [1], 2), {"k": "demote", "h": 0},
+            {"k": "promote", "h": 1}, {"k": "breakMarker"}, {"k": "markCanceled", "h": 1}, {"k": "breakMarker"},
+            {"k": "completeHpcId", "h": 1, "id": 1}, {"k": "breakMarker"}, {"k": "read"}]})
+    # A LIVE HOLDER STALLED INSIDE ITS LOCK SECTION: a promotion (load + promote) hangs right before its 1st / 2nd file write while
+    # two other processes try to get promoted and an old handle writes: each times out at the lock; then the call finishes
+    for after in (0, 1):
+        out.append({"op": "cluster.run", "kind": "witness.stall_promote", "host": 0, "breakStale": True, "jobs": two, "ops": [
+            {"k": "load", "h": 3, "host": 2, "promote": False, "jobs": True}, {"k": "demote", "h": 0},
+            {"k": "stallBegin", "h": 1, "op": {"k": "load", "h": 1, "host": 1, "promote": True, "jobs": True}, "after": after},
+            {"k": "load", "h": 2, "host": 2, "promote": True, "jobs": True}, {"k": "promote", "h": 0}, {"k": "breakMarker"},
+            {"k": "markCanceled", "h": 3}, {"k": "read"}, {"k": "stallEnd", "h": 1},
+            {"k": "load", "h": 2, "host": 2, "promote": True, "jobs": True}, upd(1, [0], [], [], [], [1], 2), {"k": "read"}, {"k": "demote", "h": 1}]})
+    # … and the holder hangs in update_job_status (4 writes) / demote (2 writes)
+    for after in (0, 1, 2, 3):
+        out.append({"op": "cluster.run", "kind": "witness.stall_update", "host": 0, "breakStale": True, "jobs": two, "ops": [
+            {"k": "load", "h": 1, "host": 1, "promote": False, "jobs": True},
+            {"k": "stallBegin", "h": 0, "op": upd(0, [0], [], [], [], [1], 2), "after": after},
+            {"k": "load", "h": 2, "host": 2, "promote": True, "jobs": True}, {"k": "markCanceled", "h": 1},
+            {"k": "completeHpcId", "h": 1, "id": 1}, {"k": "demote", "h": 0}, {"k": "read"}, {"k": "stallEnd", "h": 0},
+            upd(0, [], [], [], [0], [1], 2), {"k": "stallBegin", "h": 0, "op": {"k": "demote", "h": 0}, "after": after % 2},
+            {"k": "load", "h": 2, "host": 2, "promote": True, "jobs": True}, {"k": "stallEnd", "h": 0},
+            {"k": "load", "h": 2, "host": 2, "promote": True, "jobs": True}, {"k": "read"}]})
     # canceled chain reported the way a round does it
     three = [{"blockers": [], "cancel": False}, {"blockers": [0], "cancel": True}, {"blockers": [1], "cancel": True}]
     out.append({"op": "cluster.run", "kind": "witness.cancel_chain", "host": 0, "breakStale": True, "jobs": three, "ops": [
